@@ -406,6 +406,18 @@ pub static OPS: &[OpDef] = &[
         let v = i.pts.outliers(k);
         o.len(v.len());
         v.iter().for_each(|x| o.f64(*x));
+        // the ensemble API (several k over one prepared detector) and the slice receiver
+        if i.pts.0.len() > 8 {
+            let hi = 6.min(i.pts.0.len() - 2);
+            for run in i.pts.generate_ensemble(2..=hi) {
+                run.iter().for_each(|x| o.f64(*x));
+            }
+            i.pts.ensemble_min(2..=hi).iter().for_each(|x| o.f64(*x));
+            i.pts.0[..].ensemble_max(3..=hi).iter().for_each(|x| o.f64(*x));
+            let det = i.pts.prepared_detector();
+            det.outliers(hi).iter().for_each(|x| o.f64(*x));
+            det.outliers(2).iter().for_each(|x| o.f64(*x));
+        }
     }),
     op!("minimum_rotated_rect", POINT_FAMS, false, false, |i, o| match i.pts.minimum_rotated_rect() {
         Some(p) => w_poly(o, &p),
